@@ -322,12 +322,12 @@ var portLocks []net.Listener // held until the process ends
 // themselves, no file, released by the kernel when the process ends).
 func freePort(proto string) (int, error) {
 	shard, _ := strconv.Atoi(os.Getenv("VERIF_SHARD"))
-	lo := 10000 + (shard%16)*1300
+	lo := 10000 + (shard%16)*2400
 	if nextPort == 0 {
-		nextPort = os.Getpid() % 430
+		nextPort = os.Getpid() % 790
 	}
-	for i := 0; i < 430 && len(myTriples) < 120; i++ {
-		p := lo + (nextPort*3)%1290
+	for i := 0; i < 790 && len(myTriples) < 700; i++ {
+		p := lo + (nextPort*3)%2370
 		nextPort++
 		lf, err := net.Listen("unix", fmt.Sprintf("@verif-c08-port-%d", p))
 		if err != nil {
